@@ -275,7 +275,7 @@ TrLeapQuery == IsOp("leap_query") /\ KeepD /\ UNCHANGED <<e, eout>> /\ e.ts \in 
 (* sorted sweep TAI -> UTC: each item admissible, and never earlier than its predecessor (C06) *)
 TrSweepUtc == IsOp("sweep_utc") /\ KeepD /\ UNCHANGED <<e, eout>> /\ IsEp(E.res) /\ E.res.ts = X!UTC
               /\ DV(E.res) \in X!TaiToUtcSet(DV(E.tai))
-              /\ (E.first \/ B!Le(sw, DV(E.res)))
+              /\ (IF E.first THEN TRUE ELSE B!Le(sw, DV(E.res)))
               /\ sw' = DV(E.res)
 
 (* F27: TAI instants in the ten seconds that follow 1972-01-01T00:00:00 TAI - the stretch the   *)
@@ -362,7 +362,7 @@ WeekdayNext == TrWdFromU8 \/ TrWdFromI8 \/ TrWdAddU8 \/ TrWdSubU8 \/ TrWdAddW \/
 -----------------------------------------------------------------------------
 (* Text: C09 (Display), C10 (round trips), C11 (duration text), C13 (totality), C19 (formats) *)
 TextIs(r, x) == Has(r, "v") /\ r.v = x
-KeepAll == KeepD /\ KeepE /\ KeepS /\ KeepW
+KeepAll == KeepD /\ UNCHANGED <<e, eout>> /\ KeepS /\ KeepW
 
 (* the scale a form prints in *)
 FormScale == CASE E.form \in {"display", "iso8601", "isoformat"} -> e.ts
@@ -435,9 +435,125 @@ TrFmtParse == IsOp("fmt_parse") /\ KeepAll /\
              /\ E.s = X!Render(pf.items, X!UTC, e.v, B!Zero))
             => (ok /\ EV(E.res) = e)
 
-TextNext ==
+TextNext1 ==
   \/ TrFmtEpoch \/ TrAccessors \/ TrEpochHms \/ TrParseEpoch \/ TrFmtDur \/ TrParseDur \/ TrSubdivision
   \/ TrTotality \/ TrParseScale \/ TrFmtFromStr \/ TrRender \/ TrConstEq \/ TrRenderConst \/ TrFmtParse
+TextNext == UNCHANGED sw /\ TextNext1
+
+-----------------------------------------------------------------------------
+(* Floats: C18 (Duration <-> float), C17 (JD / MJD / UNIX views), C20 (day of year), C10 (numeric forms) *)
+IsFin(x) == x.k = "fin"
+(* a finite double times a unit, rounded to nearest, truncated to whole ns, clamped: the rule of C18 *)
+F64TimesUnit(x, u) == M!Clamp(Dy!MulTrunc(x, Ur[u].m))
+FloatDurOK(x, u, r) ==
+  CASE x.k = "fin" -> r = F64TimesUnit(x, u)
+    [] x.k = "inf" -> r = (IF x.neg THEN M!MinV ELSE M!MaxV)
+    [] OTHER       -> TRUE                                   \* NaN: any value, but a value
+(* x * Unit, Unit * x, x.seconds() ..., Duration::from_seconds(x) ... *)
+TrF64Unit == IsOp("f64_unit") /\ KeepE /\ KeepS /\ KeepW /\ IsDur(E.res)
+               /\ d' = DV(E.res) /\ M!Canonical(<<E.res.c, Mg(E.res.n)>>) /\ FloatDurOK(E.x, E.u, d') /\ out' = <<"dur", d'>>
+(* Duration * f64 for finite x: within 1 ns + float rounding (2^-50 relative) of the real product *)
+ProdNear(dv, x, r) ==
+  LET s    == IF x.e < 0 THEN -x.e ELSE 0
+      prod == B!Mk(dv.neg # x.neg, B!MulMag(B!MulMag(dv.m, x.m), B!Pow2Mag(s + x.e)))     \* d * x * 2^s
+      rs   == B!Mk(r.neg, B!MulMag(r.m, B!Pow2Mag(s)))
+      tol  == B!AddMag(B!Pow2Mag(s), B!DivModMag(prod.m, B!Pow2Mag(50))[1])
+  IN  B!CmpMag(B!Sub(rs, prod).m, tol) <= 0
+TrMulF64 == IsOp("mul_f64") /\ KeepE /\ KeepS /\ KeepW /\ IsDur(E.res) /\ IsFin(E.x)
+               /\ d' = DV(E.res) /\ M!Canonical(<<E.res.c, Mg(E.res.n)>>) /\ out' = <<"dur", d'>>
+               /\ (M!InRange(B!Mk(d.neg # E.x.neg, Dy!TruncMag(B!MulMag(d.m, E.x.m), E.x.e))) => ProdNear(d, E.x, d'))
+(* to_seconds / to_unit: within a few ulp of the exact quotient (of one second's worth near zero), right sign *)
+F64SignOK(x, v) == IF v = B!Zero THEN x.m = <<>> ELSE (x.m # <<>> /\ x.neg = v.neg)
+TrToUnit == IsOp("to_unit") /\ KeepAll /\ IsFin(E.res)
+               /\ Dy!WithinUlps(E.res, d, Ur[E.u].m, Ur[4].m, 4) /\ F64SignOK(E.res, d)
+(* sorted sweep: to_unit is non-decreasing in the duration (the previous value is kept in sw as a double record) *)
+F64Le(a, b) ==      \* a <= b for logged finite doubles
+  LET s  == (IF a.e < 0 THEN -a.e ELSE 0) + (IF b.e < 0 THEN -b.e ELSE 0)
+      av == B!Mk(a.neg, B!MulMag(a.m, B!Pow2Mag(s + a.e)))
+      bv == B!Mk(b.neg, B!MulMag(b.m, B!Pow2Mag(s + b.e)))
+  IN  B!Le(av, bv)
+TrSweepUnit == IsOp("sweep_unit") /\ KeepD /\ KeepS /\ KeepW /\ UNCHANGED <<e, eout>> /\ IsFin(E.res)
+               /\ Dy!WithinUlps(E.res, DV(E.d), Ur[E.u].m, Ur[4].m, 4)
+               /\ (IF E.first THEN TRUE ELSE F64Le(sw, E.res))
+               /\ sw' = E.res
+
+(* C17: duration-valued views are exact affine re-expressions *)
+ViewOffset(name) ==
+  CASE name = "mjd" -> DaysNs(Cal!N(1900, 1, 1) - Cal!N(1858, 11, 17))                       \* 15 020 days
+    [] name = "jde" -> B!Add(DaysNs(Cal!N(1900, 1, 1) - Cal!N(1858, 11, 17)), B!Add(DaysNs(2400000), Sec(43200)))
+    [] name = "j2k" -> B!Neg(J2000Ns)                                                        \* 3 155 716 800 s
+    [] name = "unix" -> B!Neg(DaysNs(Cal!N(1970, 1, 1)))
+    [] OTHER -> B!Zero
+(* the exact value (ns) of view `name` of the register in scale `to` *)
+ViewVals(name, to) == { B!Add(rc.v, ViewOffset(name)) : rc \in ConvCands(to) }
+TrViewDur == IsOp("view_dur") /\ KeepAll /\ IsDur(E.res) /\ E.to \notin X!Dynamic
+               /\ \E x \in ViewVals(E.view, E.to) : M!InRange(x) => DurIs(E.res, x)
+TrViewF64 == IsOp("view_f64") /\ KeepAll /\ IsFin(E.res) /\ E.to \notin X!Dynamic
+               /\ \E x \in ViewVals(E.view, E.to) : Dy!WithinUlps(E.res, x, Ur[E.u].m, Ur[4].m, 4)
+(* constructors from a float view: the value minus the view's offset, to float precision of the *)
+(* value given (4 ulp of max(|x|, 1) in that unit) plus the truncation to a nanosecond           *)
+FromViewOK(x, u, name, v) ==
+  LET s     == IF x.e < 0 THEN -x.e ELSE 0
+      \* everything times 2^s: exact = x * unit - offset
+      exact == B!Sub(B!Mk(x.neg, B!MulMag(B!MulMag(x.m, Ur[u].m), B!Pow2Mag(s + x.e))), B!Mul(ViewOffset(name), B!Pow2(s)))
+      \* tolerance, times 2^s: 4 ulp of the largest magnitude the computation goes through (the value given,
+      \* the view's offset, their difference), in nanoseconds, plus 2 ns; ulp(y) <= y * 2^-52
+      xa    == B!MulMag(B!MulMag(x.m, Ur[u].m), B!Pow2Mag(s + x.e))
+      oa    == B!MulMag(ViewOffset(name).m, B!Pow2Mag(s))
+      m1    == IF B!CmpMag(xa, oa) >= 0 THEN xa ELSE oa
+      big   == IF B!CmpMag(m1, exact.m) >= 0 THEN m1 ELSE exact.m
+      tol   == B!AddMag(B!DivModMag(B!MulSmallMag(big, 4), B!Pow2Mag(52))[1], B!Pow2Mag(s + 1))
+  IN  B!CmpMag(B!Sub(B!Mul(v, B!Pow2(s)), exact).m, tol) <= 0
+TrFromView == IsOp("from_view") /\ KeepD /\ KeepS /\ KeepW /\ UNCHANGED sw /\ IsEp(E.res) /\ IsFin(E.x)
+               /\ e' = EV(E.res) /\ e'.ts = E.ts /\ M!Canonical(<<E.res.c, Mg(E.res.n)>>) /\ eout' = <<"epoch", e'>>
+               /\ FromViewOK(E.x, E.u, E.view, e'.v)
+
+(* C20: day of year *)
+YearStart(ts, y) == X!FromFieldsRaw(ts, y, 1, 1, 0, 0, 0, 0)
+TrDoy == IsOp("doy") /\ KeepAll /\ Has(E.res, "year") /\
+      LET f == X!Fields(e.ts, e.v)
+          inyear == B!Sub(e.v, YearStart(e.ts, f[1])) IN
+        /\ E.res.year = f[1]
+        /\ DurIs(E.res.in_year, inyear)
+        /\ IsFin(E.res.doy) /\ Dy!WithinUlps(E.res.doy, B!Add(inyear, Ur[7]), Ur[7].m, Ur[7].m, 4)
+        /\ IsFin(E.res.doy2) /\ E.res.doy2 = E.res.doy /\ E.res.year2 = E.res.year
+TrFromDoy == IsOp("from_doy") /\ KeepD /\ KeepS /\ KeepW /\ UNCHANGED sw /\ IsEp(E.res) /\ IsFin(E.days)
+               /\ e' = EV(E.res) /\ e'.ts = E.ts /\ eout' = <<"epoch", e'>>
+               /\ LET x == E.days
+                       s == IF x.e < 0 THEN -x.e ELSE 0
+                       exact == B!Add(B!Mul(B!Sub(YearStart(E.ts, E.y), Ur[7]), B!Pow2(s)),
+                                      B!Mk(x.neg, B!MulMag(B!MulMag(x.m, Ur[7].m), B!Pow2Mag(s + x.e))))
+                       tol == B!AddMag(B!DivModMag(B!MulMag(B!MulSmallMag(B!MulMag(x.m, B!Pow2Mag(s + x.e)), 4), Ur[7].m), B!Pow2Mag(52))[1], B!Pow2Mag(s + 1))
+                   IN  B!CmpMag(B!Sub(B!Mul(e'.v, B!Pow2(s)), exact).m, tol) <= 0
+
+(* C10: numeric forms JD | MJD | SEC <float> <scale>: the string's number is logged as the double the *)
+(* harness formatted, so the judgement is that of the constructor, to float precision               *)
+TrParseNumeric == IsOp("parse_numeric") /\ KeepD /\ KeepS /\ KeepW /\ UNCHANGED sw /\ IsFin(E.x)
+               /\ (IsEp(E.res) \/ Has(E.res, "err"))
+               /\ (E.must => IsEp(E.res))
+               /\ e' = (IF IsEp(E.res) THEN EV(E.res) ELSE e) /\ eout' = <<"parsed", IsEp(E.res)>>
+               /\ ((IsEp(E.res) /\ E.must) => (e'.ts = E.ts /\ FromViewOK(E.x, E.u, E.view, e'.v)))
+
+(* F1 through Duration * f64: the product is taken of the wrong count *)
+Dev_F1F ==
+  /\ Open("F1") /\ IsOp("mul_f64") /\ KeepE /\ KeepS /\ KeepW /\ IsDur(E.res) /\ IsFin(E.x) /\ M!F1Class(d)
+  /\ d' = DV(E.res) /\ out' = <<"dur", d'>>
+  /\ ~ProdNear(d, E.x, d') /\ ProdNear(M!F1Total(d), E.x, d')
+  /\ Known("F1")
+
+(* F27 through the UTC views *)
+Dev_F27V ==
+  /\ IsOpIn({"view_dur", "view_f64"}) /\ E.to = X!UTC /\ F27Applies(e) /\ KeepAll /\ UNCHANGED sw
+  /\ LET x == B!Add(F27Utc(e), ViewOffset(E.view)) IN
+        IF E.op = "view_dur" THEN DurIs(E.res, x) ELSE (IsFin(E.res) /\ Dy!WithinUlps(E.res, x, Ur[E.u].m, Ur[4].m, 4))
+  /\ ~(\E y \in ViewVals(E.view, E.to) : IF E.op = "view_dur" THEN DurIs(E.res, y) ELSE Dy!WithinUlps(E.res, y, Ur[E.u].m, Ur[4].m, 4))
+  /\ Known("F27")
+
+FloatNext ==
+  \/ Dev_F27V
+  \/ Dev_F1F
+  \/ TrF64Unit \/ TrMulF64 \/ (TrToUnit /\ UNCHANGED sw) \/ TrSweepUnit
+  \/ ((TrViewDur \/ TrViewF64 \/ TrDoy) /\ UNCHANGED sw) \/ TrFromView \/ TrFromDoy \/ TrParseNumeric
 
 -----------------------------------------------------------------------------
 TraceInit == l = Start /\ M!DInit /\ X!EInit /\ sw = B!Zero /\ X!SInit /\ W!WInit
@@ -446,6 +562,7 @@ TraceNext == \/ (DurationNext /\ KeepE /\ KeepS /\ KeepW)
              \/ (SeriesNext /\ KeepD /\ KeepE /\ KeepW)
              \/ (WeekdayNext /\ KeepD /\ KeepE /\ KeepS)
              \/ TextNext
+             \/ FloatNext
 TraceSpec == TraceInit /\ [][TraceNext]_vars
 
 (* invariants evaluated at every step of every validated trace *)
